@@ -3,6 +3,7 @@ package main
 import (
 	"go/token"
 	"go/types"
+	"strings"
 
 	"golang.org/x/tools/go/ssa"
 )
@@ -182,6 +183,15 @@ func (e *effects) writesValue(c *Ctx, fn *ssa.Function, root ssa.Value) string {
 			case *ssa.MapUpdate:
 				if D[x.Map] {
 					note("updates map " + path(x.Map) + " (" + c.pos(x.Pos()) + ")")
+				}
+			case *ssa.MakeClosure:
+				// a method value bound to it (r.Shuffle(len(a), swappable[T](a).swap)): the method writes through its receiver
+				if bf, ok := x.Fn.(*ssa.Function); ok && strings.HasSuffix(bf.Name(), "$bound") && len(x.Bindings) == 1 && D[x.Bindings[0]] {
+					if target, _ := funcAndReceiver(x); target != nil && target.Blocks != nil && c.inModule(target) && len(target.Params) > 0 {
+						if w := e.writesParam(c, target, 0); w != "" {
+							note("binds it as the receiver of the method value " + funcShort(target) + ", which " + w)
+						}
+					}
 				}
 			}
 			cc := callCommon(in)
